@@ -11,8 +11,17 @@
 (*                quantifies over values the libraries can deliver);                            *)
 (*   Allowed(ep,s) the outcomes the property allows: the affected duty ends ok, with an error,  *)
 (*                or with a fallback.                                                           *)
-(* Actions: Call (the environment delivers an input), Return (the duty ends with an allowed     *)
-(* outcome), Undeliverable, DecoderPanic.  The trace vocabulary additionally has the event Crash (panic or     *)
+(*   Decides(ep)  the entry point starts with a decoder of Vouch whose verdict (accepted /       *)
+(*                rejected) is visible to the caller;                                            *)
+(*   Uses(ep,s)   the CONSUMERS of the decoded value that belong to the entry point: an input is  *)
+(*                consumed END TO END, i.e. decoded AND used, because a decoder may "succeed"     *)
+(*                with a value that crashes its first user (a typed-nil configuration behind a    *)
+(*                non-nil interface, a nil entry in a map, ...).  A duty that consumed the input   *)
+(*                has not ended before every use was performed (or the decoder rejected it).      *)
+(* Actions: Call (the environment delivers an input), Decoded (Vouch's decoder accepted or        *)
+(* rejected it), Use (a consumer worked with what the decoder left behind and ended ok / error /   *)
+(* fallback), Return (the duty ends with an allowed outcome), Undeliverable, DecoderPanic.  The   *)
+(* trace vocabulary additionally has the event Crash (panic or                                    *)
 (* fatal runtime error, in the calling goroutine or any goroutine Vouch started): NO ACTION OF   *)
 (* THIS SPECIFICATION PRODUCES IT, so a recorded trace containing it is not a behaviour.         *)
 (* All dimension values are strings.  The Go drivers (overlay/verifdrivers/c16) build the        *)
@@ -24,7 +33,7 @@ CONSTANT EPs        \* the entry points explored by this configuration (subset o
 
 Outcomes == {"ok", "error", "fallback"}
 
-EntryPoints == {"execv2", "execv1", "execmutate", "graffiti", "builderbid", "proposalbest", "proposer",
+EntryPoints == {"execv2", "execv1", "execmutate", "execdoc", "execservice", "graffiti", "builderbid", "proposalbest", "proposer",
                 "attester", "aggregator", "syncmessenger", "syncaggregator", "mergeduties",
                 "cacheevents", "submitclassify"}
 
@@ -75,21 +84,78 @@ ExecMutate ==
     [base : {"v2", "v1"}, site : {ToString(i) : i \in 0..69},
      mut : {"null", "emptyobj", "emptyarr", "emptystr", "zero", "true", "string", "delete", "duplicate"}]
 
+(* WHOLE-DOCUMENT shapes of an execution configuration: what an operator's file or a configuration  *)
+(* server can answer INSTEAD of the expected object (the three families above only vary the inside   *)
+(* of an object).  All of them are "well-formed but unexpected" or plainly malformed CONTENT of the   *)
+(* configuration source; every one must end in an error or a fallback to the previous / default      *)
+(* configuration.                                                                                    *)
+(*  null            the JSON literal null (a config server that has nothing for these validators)    *)
+(*  nullpadded      " null\n"                                                                        *)
+(*  empty           zero bytes            whitespace   only blanks and newlines                      *)
+(*  emptyobj        {}  (= object without "version")   emptyarr  []                                  *)
+(*  number | string | true | false       a JSON scalar                                               *)
+(*  onlyversion0/1/2/9/null/str          an object with nothing but "version" (0, 1, 2, 9, null, "2")*)
+(*  trailing        a valid document followed by text   concat  two valid documents back to back      *)
+(*  trailingnull    a valid document followed by null   arrayofdocs  [doc, doc]   arrayofnull [null]  *)
+(*  quoted          the document as a JSON string (doubly encoded)                                   *)
+(*  bom             UTF-8 byte order mark + valid document   truncated  a valid document cut in half  *)
+(*  valid2 | valid1 a complete version 2 / legacy document (the benign member of the family)          *)
+DocShapes ==
+    {"null", "nullpadded", "empty", "whitespace", "emptyobj", "emptyarr", "number", "string", "true", "false",
+     "onlyversion0", "onlyversion1", "onlyversion2", "onlyversion9", "onlyversionnull", "onlyversionstr",
+     "trailing", "concat", "trailingnull", "arrayofdocs", "arrayofnull", "quoted", "bom", "truncated",
+     "valid2", "valid1"}
+
+(* relay address strings as an operator / config server can write them (shared by "builderbid" and   *)
+(* "execservice"): good | empty | unparsable | noscheme | refused (nothing listens) | nohost           *)
+(* ("http://") | space (" ")                                                                           *)
+RelayAddrs == {"good", "empty", "unparsable", "noscheme", "refused", "nohost", "space"}
+
+(* (a) blockrelay.UnmarshalJSON alone on a whole-document shape, then - if it accepted - the lookups  *)
+(* every user of the decoded configuration performs                                                   *)
+ExecDoc == [doc : DocShapes]
+
+(* (b) the REAL services/blockrelay/standard service, with one validating account, fetching the       *)
+(* document from its configuration source and then USING the active configuration: ProposerConfig     *)
+(* for a validator, a validator registration round, an auction (AuctionBlock + the cached-bid          *)
+(* lookup), the relays being reached through the real `best` builder-bid strategy and                  *)
+(* util.FetchBuilderClient                                                                             *)
+(*  doc     DocShapes, or "missing" (the source has no such file / answers 404)                        *)
+(*  source  file (static source: majordomo file confidant) | http (configuration server: majordomo     *)
+(*          HTTP confidant, POST of the validators' public keys)                                        *)
+(*  prior   none (the document is what the service finds when it STARTS: initial fetch inside New,      *)
+(*          first registration round in the goroutine New starts) | v2 | v1 (a good configuration of     *)
+(*          that version is active, then the source changes and the periodic fetch job runs)            *)
+(*  addr    the relay address written in a valid document (only varied for valid documents: relay       *)
+(*          address strings -> registration round and auction)                                          *)
+ExecService ==
+    [doc : DocShapes \cup {"missing"}, source : {"file", "http"}, prior : {"none", "v2", "v1"}, addr : {"good"}]
+    \cup [doc : {"valid2", "valid1"}, source : {"file"}, prior : {"none"}, addr : RelayAddrs]
+
 (* dynamic graffiti provider (content fetched from an operator-supplied location)                *)
 (*  file     missing | error | empty | blank (only newlines) | spaces | crlf | one | many |       *)
-(*           template ({{SLOT}}/{{VALIDATORINDEX}}) | long (>32 bytes) | client ({{CLIENT}})       *)
+(*           template ({{SLOT}}/{{VALIDATORINDEX}}) | long (>32 bytes) | client ({{CLIENT}}) |     *)
+(*           nul (a line of NUL bytes) | unterminated ("{{SLOT") | utf8 (multi-byte characters     *)
+(*           across the 32 byte boundary)                                                          *)
 (*  fallback fallback location: none | present | missing                                          *)
 (*  loc      location string: plain | templated                                                   *)
+(*  use      who consumes the provider: call (Graffiti() alone, result copied into 32 bytes) |     *)
+(*           propose (END TO END: the real beaconblockproposer/standard service takes its graffiti *)
+(*           from this provider, expands {{CLIENT}} itself and asks a scripted node through the    *)
+(*           real client) | proposebest (the same with the real `best` proposal strategy between   *)
+(*           proposer and node: the strategy expands {{CLIENT}} per node)                          *)
 Graffiti ==
-    [file : {"missing", "error", "empty", "blank", "spaces", "crlf", "one", "many", "template", "long", "client"},
-     fallback : {"none", "present", "missing"},
-     loc : {"plain", "templated"}]
+    LET full == [file : {"missing", "error", "empty", "blank", "spaces", "crlf", "one", "many", "template", "long",
+                         "client", "nul", "unterminated", "utf8"},
+                 fallback : {"none", "present", "missing"},
+                 loc : {"plain", "templated"},
+                 use : {"call", "propose", "proposebest"}]
+    IN  {s \in full : s.use # "call" => s.loc = "plain"}
 
 (* builder-bid strategies (strategies/builderbid/{best,deadline}.BuilderBid) with the relay      *)
 (* reached through util.FetchBuilderClient and the real go-builder-client HTTP decoder           *)
 (*  strat   best | deadline                                                                       *)
-(*  addr    relay address in the proposer configuration: good | empty | unparsable | noscheme |   *)
-(*          refused (nothing listens)                                                             *)
+(*  addr    relay address in the proposer configuration: RelayAddrs                               *)
 (*  bid     what the relay answers: valid | nocontent (204) | datanull | emptyobj ({}) |          *)
 (*          nomessage | noheader | zerovalue | wrongparent | badversion | notjson | http500 |      *)
 (*          zerofee (zero fee recipient) | badsig                                                 *)
@@ -97,7 +163,7 @@ Graffiti ==
 (*  pkcfg   relay public key configured: none | set                                               *)
 BuilderBid ==
     LET full == [strat : {"best", "deadline"},
-                 addr : {"good", "empty", "unparsable", "noscheme", "refused"},
+                 addr : RelayAddrs,
                  bid : {"valid", "nocontent", "datanull", "emptyobj", "nomessage", "noheader", "zerovalue",
                         "wrongparent", "badversion", "notjson", "http500", "zerofee", "badsig"},
                  second : {"none", "good"},
@@ -221,6 +287,8 @@ Shapes(ep) ==
     CASE ep = "execv2" -> ExecV2
       [] ep = "execv1" -> ExecV1
       [] ep = "execmutate" -> ExecMutate
+      [] ep = "execdoc" -> ExecDoc
+      [] ep = "execservice" -> ExecService
       [] ep = "graffiti" -> Graffiti
       [] ep = "builderbid" -> BuilderBid
       [] ep = "proposalbest" -> ProposalBest
@@ -244,37 +312,81 @@ Gated(ep, s) == ep = "mergeduties"
 (* matter of the functional properties C05..C15, not of C16.                                       *)
 Allowed(ep, s) == Outcomes
 
+(* END-TO-END consumption.  Entry points that begin with one of Vouch's own decoders whose verdict   *)
+(* the caller sees (blockrelay.UnmarshalJSON called directly):                                        *)
+Decides(ep) == ep \in {"execv2", "execv1", "execmutate", "execdoc"}
+
+(* The consumers of the decoded value that are part of the entry point.  lookup = ProposerConfig      *)
+(* (a controlled validator twice, an unknown one), String / MarshalJSON; register = a validator        *)
+(* registration round (the scheduled job and the exported SubmitValidatorRegistrations); auction =     *)
+(* AuctionBlock and the cached-bid lookup (BuilderBid) that follows it.  For a Decides entry point     *)
+(* the uses happen only if the decoder accepted; for the service they always happen (a rejected         *)
+(* document leaves the previous / initial configuration active and THAT is used).                      *)
+UseNames == {"lookup", "register", "auction"}
+Uses(ep, s) ==
+    CASE Decides(ep) -> {"lookup"}
+      [] ep = "execservice" -> {"lookup", "register", "auction"}
+      [] OTHER -> {}
+
 -----------------------------------------------------------------------------
 VARIABLES pending,   \* the input being processed: [ep, shape] or NoCall
-          last,      \* how the last duty ended
+          progress,  \* how far the pending input got: [decoded, done]
+          last,      \* how the last duty ended (an outcome, "undeliverable", or "none")
           alive      \* the process keeps running
 
-vars == <<pending, last, alive>>
+vars == <<pending, progress, last, alive>>
 
 NoCall == [ep |-> "none"]
-NoOutcome == [ep |-> "none", outcome |-> "none"]
+NoOutcome == "none"
+NoProgress == [decoded |-> "na", done |-> {}]
 
-Init == pending = NoCall /\ last = NoOutcome /\ alive = TRUE
+Init == pending = NoCall /\ progress = NoProgress /\ last = NoOutcome /\ alive = TRUE
 
 Call(ep, s) ==
     /\ alive
     /\ pending = NoCall
     /\ ep \in EPs /\ s \in Shapes(ep)
     /\ pending' = [ep |-> ep, shape |-> s]
+    /\ progress' = [decoded |-> IF Decides(ep) THEN "unknown" ELSE "na", done |-> {}]
     /\ UNCHANGED <<last, alive>>
+
+(* Vouch's decoder returned: it accepted the input (a value was handed to the caller without an       *)
+(* error) or rejected it.                                                                              *)
+Decoded(accepted) ==
+    /\ pending # NoCall
+    /\ progress.decoded = "unknown"
+    /\ progress' = [progress EXCEPT !.decoded = IF accepted THEN "accepted" ELSE "rejected"]
+    /\ UNCHANGED <<pending, last, alive>>
+
+(* A consumer used what the decoder left behind and ended in one of the allowed ways.                  *)
+Use(u, o) ==
+    /\ pending # NoCall
+    /\ u \in Uses(pending.ep, pending.shape) \ progress.done
+    /\ progress.decoded \in {"na", "accepted"}
+    /\ o \in Allowed(pending.ep, pending.shape)
+    /\ progress' = [progress EXCEPT !.done = @ \cup {u}]
+    /\ UNCHANGED <<pending, last, alive>>
+
+(* the input has been consumed end to end: rejected by the decoder, or decoded and used by every       *)
+(* consumer of the entry point                                                                         *)
+Consumed ==
+    \/ progress.decoded = "rejected"
+    \/ /\ progress.decoded \in {"na", "accepted"}
+       /\ Uses(pending.ep, pending.shape) \subseteq progress.done
 
 Return(o) ==
     /\ pending # NoCall
+    /\ Consumed
     /\ o \in Allowed(pending.ep, pending.shape)
-    /\ last' = [ep |-> pending.ep, outcome |-> o]
-    /\ pending' = NoCall
+    /\ last' = o
+    /\ pending' = NoCall /\ progress' = NoProgress
     /\ UNCHANGED alive
 
 Undeliverable ==
     /\ pending # NoCall
     /\ Gated(pending.ep, pending.shape)
-    /\ last' = [ep |-> pending.ep, outcome |-> "undeliverable"]
-    /\ pending' = NoCall
+    /\ last' = "undeliverable"
+    /\ pending' = NoCall /\ progress' = NoProgress
     /\ UNCHANGED alive
 
 (* The HTTP decoding layer of a client library (go-eth2-client/http, go-builder-client/http) itself  *)
@@ -284,14 +396,16 @@ Undeliverable ==
 (* observations in its evidence, but it is not a Crash of Vouch in the sense of C16.                   *)
 DecoderPanic ==
     /\ pending # NoCall
-    /\ last' = [ep |-> pending.ep, outcome |-> "undeliverable"]
-    /\ pending' = NoCall
+    /\ last' = "undeliverable"
+    /\ pending' = NoCall /\ progress' = NoProgress
     /\ UNCHANGED alive
 
 \* There is deliberately no action Crash: nothing sets alive to FALSE.
 
 Next ==
     \/ \E ep \in EPs : \E s \in Shapes(ep) : Call(ep, s)
+    \/ \E a \in BOOLEAN : Decoded(a)
+    \/ \E u \in UseNames : \E o \in Outcomes : Use(u, o)
     \/ \E o \in Outcomes : Return(o)
     \/ Undeliverable
     \/ DecoderPanic
@@ -302,16 +416,30 @@ Spec == Init /\ [][Next]_vars
 TypeOK ==
     /\ alive \in BOOLEAN
     /\ pending = NoCall \/ (pending.ep \in EPs /\ pending.shape \in Shapes(pending.ep))
-    /\ last.outcome \in Outcomes \cup {"none", "undeliverable"}
+    /\ progress.decoded \in {"na", "unknown", "accepted", "rejected"}
+    /\ progress.done \subseteq UseNames
+    /\ pending = NoCall => progress = NoProgress
+    /\ last \in Outcomes \cup {"none", "undeliverable"}
 
 \* C16: the process keeps running
 KeepsRunning == alive
 
 \* C16: every duty that consumed outside data ended with ok / error / fallback
-EndsProperly == last.outcome \in Outcomes \cup {"none", "undeliverable"}
+EndsProperly == last \in Outcomes \cup {"none", "undeliverable"}
 
-\* an input is never dropped on the floor by the specification: a pending call can always end
-Total == pending # NoCall => ENABLED (\E o \in Outcomes : Return(o))
+\* decode AND use: nothing is used that the decoder rejected, and only consumers of the entry point run
+UsedOnlyIfDecoded ==
+    pending # NoCall =>
+        /\ progress.done \subseteq Uses(pending.ep, pending.shape)
+        /\ (progress.done # {} => progress.decoded \in {"na", "accepted"})
+
+\* an input is never dropped on the floor by the specification: a pending call can always make its next
+\* step towards an allowed end (decoder verdict, a remaining use, or the end of the duty)
+Total ==
+    pending # NoCall =>
+        \/ ENABLED (\E a \in BOOLEAN : Decoded(a))
+        \/ ENABLED (\E u \in UseNames : \E o \in Outcomes : Use(u, o))
+        \/ ENABLED (\E o \in Outcomes : Return(o))
 
 LatticeSize == [ep \in EntryPoints |-> Cardinality(Shapes(ep))]
 =============================================================================
